@@ -1465,11 +1465,35 @@ def guard_text(guards):
     return " && ".join(out)
 
 
+def _through_scalar_accumulators(accesses, base, path=""):
+    """`x = 0; x += t; x /= d; a[i] = x;` is the same computation as `a[i] = 0; a[i] += t; a[i] /= d;`: where an element of `base` is
+    assigned the bare value of a scalar local, the stores that built that local since the previous such hand-over (program order) are
+    re-read as stores to that element.  Returns the access list with those stores in place of the hand-over."""
+    scal = [a for a in accesses if a.kind == "store" and a.idx is None and a.value is not None]
+    out = []
+    for a in accesses:
+        if a.kind == "store" and a.base == base and a.path == path and a.idx is not None and a.op == "=" and a.value is not None and a.value.is_Symbol:
+            hname = str(a.value)
+            built = [b for b in scal if b.base == hname and b.seq < a.seq]
+            if built:
+                # only the stores since the local was last re-initialised with a plain `=` outside the innermost common loops
+                start = max([i for i, b in enumerate(built) if b.op == "=" and len(b.loops) <= len(a.loops)] or [0])
+                for b in built[start:]:
+                    c = Access("store", base, a.idx, path, b.node, b.line, a.guards if len(b.guards) <= len(a.guards) else b.guards, b.loops if len(b.loops) >= len(a.loops) else a.loops,
+                               op=b.op, value=b.value, value_node=b.value_node, base_node=a.base_node)
+                    c.seq = b.seq
+                    out.append(c)
+                continue
+        out.append(a)
+    return out
+
+
 def fold_stores(accesses, base, path=""):
     """Fold the sequence of stores to `base[...]` (same index expression, program order) into one
     expression per (index, guard context).  `+=`/`-=`/`*=`/`/=` refer to the value folded so far; a compound
     store with no preceding plain store refers to Symbol('old').  Returns list of dict(idx, guards, loops, value, line)."""
     out = []
+    accesses = _through_scalar_accumulators(accesses, base, path)
     for a in accesses:
         if a.kind != "store" or a.base != base or a.path != path or a.idx is None:
             continue
